@@ -325,8 +325,8 @@ func (w SocialWrappedCallbacks) update(c context.Context, a vocab.ActivityStream
 		for k, v := range newM {
 			m[k] = v
 		}
-		// Delete top-level values where the raw Activity had nils.
-		for k, v := range w.rawActivity {
+		// Delete top-level values where the raw object had nils.
+		for k, v := range rawObject(w.rawActivity, idx) {
 			if _, ok := m[k]; v == nil && ok {
 				delete(m, k)
 			}
@@ -526,6 +526,25 @@ func (w SocialWrappedCallbacks) block(c context.Context, a vocab.ActivityStreams
 	}
 	if w.Block != nil {
 		return w.Block(c, a)
+	}
+	return nil
+}
+
+// rawObject returns the JSON map literal of the idx-th value of the raw
+// activity's 'object' property, or nil if that value is not an embedded
+// object.
+func rawObject(raw map[string]interface{}, idx int) map[string]interface{} {
+	switch o := raw["object"].(type) {
+	case map[string]interface{}:
+		if idx == 0 {
+			return o
+		}
+	case []interface{}:
+		if idx < len(o) {
+			if m, ok := o[idx].(map[string]interface{}); ok {
+				return m
+			}
+		}
 	}
 	return nil
 }
